@@ -60,17 +60,17 @@ Defined.
 Definition checked (force : bool) (o : outcome) : bool :=
   match o with ConnFail => false | Conn fresh _ => force || negb fresh end.
 
-Fixpoint trace_loop (c : cfg) (now : Z) (outs : addr -> outcome) (todo : list addr) (bl : banlist)
+Fixpoint trace_loop (c : cfg) (tc bc : addr -> Z) (outs : addr -> outcome) (todo : list addr) (bl : banlist)
   : list (addr * bool) :=
   match todo with
   | [] => []
   | a :: rest =>
-      match gate c now a bl with
-      | None => trace_loop c now outs rest bl
+      match gate c (tc a) a bl with
+      | None => trace_loop c tc bc outs rest bl
       | Some (f, bl1) =>
-          match contact now outs a f bl1 with
-          | Skip b => trace_loop c now outs rest b      (* [contact] never skips *)
-          | Fail b => (a, checked f (outs a)) :: trace_loop c now outs rest b
+          match contact (bc a) outs a f bl1 with
+          | Skip b => trace_loop c tc bc outs rest b      (* [contact] never skips *)
+          | Fail b => (a, checked f (outs a)) :: trace_loop c tc bc outs rest b
           | Done _ => [(a, checked f (outs a))]
           end
       end
@@ -83,7 +83,8 @@ Proof. decide equality; [apply list_eq_dec, Bool.bool_dec|apply obs_eq_dec]. Def
 
 (** All observations of one client transaction from ban list [bl]: the checkout over every order
     of the candidates, every choice of one outcome per address among the listed ones, every listed
-    clock reading; if the client saw its statement fail ([ek = Some k]) the handed-out server is
+    clock reading (the same reading for every address: the driver keeps ban expiry away from the
+    second boundaries a checkout may cross and compares new time stamps by interval); if the client saw its statement fail ([ek = Some k]) the handed-out server is
     banned by [ExecFail].  Each observation carries, per contacted address, whether it was
     health-checked. *)
 Definition tie_txn (c : cfg) (bl : banlist) (req : option role) (shard : option nat)
@@ -92,10 +93,10 @@ Definition tie_txn (c : cfg) (bl : banlist) (req : option role) (shard : option 
     (flat_map (fun now =>
        flat_map (fun asg =>
          map (fun order =>
-                let '(g, ct, bl1) := get c req shard order (outs_of asg) now bl in
+                let '(g, ct, bl1) := get c req shard order (outs_of asg) (fun _ => now) (fun _ => now) bl in
                 let hcs := match effective_sel c shard with
                            | SInvalid => []
-                           | _ => map snd (trace_loop c now (outs_of asg) (rev order) bl)
+                           | _ => map snd (trace_loop c (fun _ => now) (fun _ => now) (outs_of asg) (rev order) bl)
                            end in
                 match g, ek with
                 | Ok a, Some k => (proj (g, ct, step c bl1 (ExecFail a k now)), hcs)
@@ -111,14 +112,14 @@ Definition tie_get (c : cfg) (bl : banlist) (req : option role) (shard : option 
 
 Definition tie_step (c : cfg) (bl : banlist) (o : op) : list (nat * reason * Z) := proj_bl (step c bl o).
 
-Lemma trace_loop_ct : forall c now outs todo bl,
-  map fst (trace_loop c now outs todo bl) = snd (fst (get_loop c now outs todo bl)).
+Lemma trace_loop_ct : forall c tc bc outs todo bl,
+  map fst (trace_loop c tc bc outs todo bl) = snd (fst (get_loop c tc bc outs todo bl)).
 Proof.
   induction todo as [|a rest IH]; intros bl; cbn; [reflexivity|]. unfold visit.
-  destruct (gate c now a bl) as [[f bl1]|]; [|apply IH].
-  destruct (contact now outs a f bl1) as [b|b|b]; cbn.
+  destruct (gate c (tc a) a bl) as [[f bl1]|]; [|apply IH].
+  destruct (contact (bc a) outs a f bl1) as [b|b|b]; cbn.
   - apply IH.
-  - rewrite IH. destruct (get_loop c now outs rest b) as [[r ct] b2]. reflexivity.
+  - rewrite IH. destruct (get_loop c tc bc outs rest b) as [[r ct] b2]. reflexivity.
   - reflexivity.
 Qed.
 
